@@ -111,6 +111,18 @@ func TestC13Hostile(t *testing.T) {
 	vlib.SetRule("C13", "TestC13Hostile", "structured mutations (bit flips, hostile msgpack constants, truncation at any offset, 12 kinds of length/count bombs, slice duplication/deletion, garbage tails) of valid digest/delta datagrams and join/leave streams, plus well-formed deltas about the receiver itself (left marker, bogus compaction values, forged addresses) sent as datagram, join and leave; fed to the real packet and stream handlers; oracle: returns (error or not) within 20 s without panicking, the receiver's own published state and flags are identical before and after; non-trivial = the input passes the type/version check (reaches the decoder)")
 	vlib.Run(t, "C13", func(c *vlib.Case) {
 		n, _ := victim()
+		// a hostile peer sends several messages: state created by one (for instance a
+		// node introduced by a digest) is there when the next one arrives
+		for round, rounds := 0, c.Int("inputs", 1, 3); round < rounds; round++ {
+			hostileOne(c, n)
+		}
+	})
+}
+
+var hostileIDs = []string{"n\xffw", "\xfe", "a\x00b", "", "victim", "peer", "caf\xc3", strings.Repeat("i", 300), "new"}
+
+func hostileOne(c *vlib.Case, n *gossip.VerifNode) {
+	{
 		before := n.State.LocalNode()
 		baseDelta := gossip.VerifDelta{
 			{ID: "peer", Addr: "127.0.0.1:7001", Entries: []gossip.Entry{{Key: "k", Value: "v", Version: 3}, {Key: "endpoint:e9", Value: "1", Version: 4}, {Key: gossip.VerifCompactKey, Value: "2", Version: 5, Internal: true}}},
@@ -119,7 +131,7 @@ func TestC13Hostile(t *testing.T) {
 		baseDigest := gossip.VerifDigest{{ID: "peer", Addr: "127.0.0.1:7001", Version: 9}, {ID: "victim", Addr: "127.0.0.1:7000", Version: 1 << 40}, {ID: "new", Addr: "127.0.0.1:7003", Version: 1}, {ID: "gone", Addr: "127.0.0.1:7004", Version: 1, Left: true}}
 		var input []byte
 		stream := false
-		kind := c.Pick("inputKind", 9)
+		kind := c.Pick("inputKind", 11)
 		switch kind {
 		case 0:
 			b, _ := gossip.VerifEncodeDelta("peer", "127.0.0.1:7001", baseDelta, 1400)
@@ -153,6 +165,24 @@ func TestC13Hostile(t *testing.T) {
 			}
 			input = gossip.VerifEncodeDeltaRaw("peer", "127.0.0.1:7001", counts[c.Pick("senderCount", len(counts))], secs)
 			c.Class("forged-counts")
+		case 9: // a digest introducing nodes with hostile ids (a later delta may name them)
+			var dg gossip.VerifDigest
+			for i, k := 0, c.Int("digestEntries", 1, 3); i < k; i++ {
+				dg = append(dg, gossip.VerifDigestEntry{ID: hostileIDs[c.Pick("hostileID", len(hostileIDs))], Addr: c.OneOf("daddr", "127.0.0.1:7009", "", "not-an-address"), Version: uint64(c.Int("dver", 0, 3)), Left: c.Chance("dleft", 1, 5)})
+			}
+			if c.Bool("viaJoin") {
+				input, stream = gossip.VerifEncodeJoin(hostileIDs[c.Pick("joinID", len(hostileIDs))], "127.0.0.1:7001", nil, dg), true
+			} else {
+				input, _ = gossip.VerifEncodeDigest("peer", "127.0.0.1:7001", c.Bool("req"), dg, 1400)
+			}
+			c.Class("hostile-id-digest")
+		case 10: // a delta about nodes with hostile ids
+			var secs []gossip.VerifRawSection
+			for i, k := 0, c.Int("sections", 1, 2); i < k; i++ {
+				secs = append(secs, gossip.VerifRawSection{ID: hostileIDs[c.Pick("hostileID", len(hostileIDs))], Addr: "127.0.0.1:7009", Count: 2, Entries: []gossip.Entry{{Key: "proxy_addr", Value: "p", Version: uint64(c.Int("ver", 1, 4))}, {Key: gossip.VerifLeftKey, Version: 9, Internal: c.Bool("internal")}}})
+			}
+			input = gossip.VerifEncodeDeltaRaw(hostileIDs[c.Pick("senderID", len(hostileIDs))], "127.0.0.1:7001", 0, secs)
+			c.Class("hostile-id-delta")
 		case 7: // raw bytes with a plausible prefix
 			input = append([]byte{byte(c.Int("type", 0, 5)), byte(c.Int("version", 0, 1))}, c.Bytes("raw", 60)...)
 			stream = c.Bool("asStream")
@@ -229,5 +259,5 @@ func TestC13Hostile(t *testing.T) {
 				c.Fatalf("C13: received input changed the node's own metadata: %+v", m)
 			}
 		}
-	})
+	}
 }
